@@ -16,11 +16,15 @@ let ri () = int_of_string (next ())
 let evs l = String.concat " " (List.concat_map (fun e -> match e with
   | Gauss (s, d) -> [Printf.sprintf "%h" 0.0; Printf.sprintf "%h" s; Printf.sprintf "%h" d]
   | Select (e, f) -> [Printf.sprintf "%h" 1.0; Printf.sprintf "%h" e; Printf.sprintf "%h" f]) l)
+let pevs l = String.concat " " (List.concat_map (fun e -> match e with
+  | Lap (b, d) -> [Printf.sprintf "%h" 2.0; Printf.sprintf "%h" b; Printf.sprintf "%h" d]
+  | PSelect (e, f) -> [Printf.sprintf "%h" 1.0; Printf.sprintf "%h" e; Printf.sprintf "%h" f]) l)
 let dispatch (cmd : string) (rest : string list) : string =
   toks := rest;
   match cmd with
   | "mst_events" -> let rho = rf () in let k1 = ri () in let r = ri () in let k2 = ri () in evs (mst_events fops rho (nat_of_int k1) (nat_of_int r) (nat_of_int k2))
   | "mwem_events" -> let rho = rf () in let a = rf () in let t = ri () in let b = ri () = 1 in let f = ri () = 1 in evs (mwem_events fops rho a (nat_of_int t) b f)
+  | "mwem_lap_events" -> let eps = rf () in let a = rf () in let t = ri () in let b = ri () = 1 in pevs (mwem_lap_events fops eps a (nat_of_int t) b)
   | "adagrid_events" -> let r1 = rf () in let r2 = rf () in let r3 = rf () in let n1 = ri () in let r = ri () in let n3 = ri () in
     evs (adagrid_events fops r1 r2 r3 (nat_of_int n1) (nat_of_int r) (nat_of_int n3))
   | "aim_events" -> let rho = rf () in let t = ri () in let d = ri () in let n = ri () in
